@@ -1,11 +1,181 @@
-/- Oracle operations, group Ecc (see /verif/CONVENTIONS.md). -/
+/- Oracle operations, group Ecc (C04 ecc part, C05, C06; see /verif/CONVENTIONS.md, DESIGN.md appendix A).
+
+   The model (`Model/ECC.lean`) is instantiated with the curve operations of `Prim.Secp256k1`
+   (`secpOps`, ekliptic's `(0,0)` = infinity convention mapped onto `Option`), the RFC 6979 nonce
+   of `Prim.RFC6979` and the BIP340 tagged hashes of `Prim.BIP340`.
+
+   scalars / coordinates / r / s are big-endian hex of any length (`-` = zero); lists are
+   comma-separated, `[]` is the empty list.
+
+   pub.c|pub.u|pub.x <k>            → ok <hex> | panic                    getPublicKey*
+   pub.iscomp <hex>                 → ok true|false                       isCompressedPublicKey
+   point.dec <hex>                  → ok <x64> <y64> | err                deserializePoint
+   point.dec.spec <hex>             → ok <x64> <y64> | err                Spec.parsePoint ∧ Prim.parsePoint
+   point.enc <x> <y> c|u            → ok <hex> | panic                    serializePoint
+   pub.compress|pub.uncompress <hex>→ ok <hex> | err | panic
+   ecdh <priv> <pub>                → ok <hex32> | err | panic            deserialize, sharedSecret
+   ecdh.sym <a> <b>                 → ok <hex32> | panic                  sharedSecret a (b·G)
+   sum.priv <k,k,…>                 → ok <hex32> | err | panic
+   sum.pub <x,x,…>                  → ok <hex32> | err | panic
+   priv.new <stream>                → ok <hex32> | err
+   ecdsa.sign <priv> <digest>       → ok <r64> <s64> | panic
+   ecdsa.verify <pub> <digest> <r> <s>      → ok true|false | panic       Model.verifyECDSA
+   ecdsa.verify.spec …                      → ok true|false               Spec.verifyECDSA ∧ Prim.ecdsaVerify
+   schnorr.sign <priv> <msg> <aux>  → ok <sig64> | panic
+   schnorr.verify <pub> <msg> <sig> → ok true|false | panic
+   schnorr.verify.spec …            → ok true|false                       Spec.verifySchnorr ∧ Prim.schnorrVerify
+   sig.encode <priv> <digest> <ht>  → ok <hex> | err | panic              signSigHash (DER + hash type)
+   ecdsa.sign.ref <priv> <digest>   → ok <r64> <s64>                      Prim.ecdsaSign (harness-side assembly)
+-/
 import BtcVerif.Oracle.Util
+import BtcVerif.Model.ECC
+import BtcVerif.Model.DER
+import BtcVerif.Spec.ECC
+import BtcVerif.Prim.Secp256k1
+import BtcVerif.Prim.RFC6979
+import BtcVerif.Prim.ECDSA
+import BtcVerif.Prim.BIP340
 
 namespace BtcVerif.Oracle
-open BtcVerif
+open BtcVerif BtcVerif.Model.ECC
+
+namespace EccImpl
+open Prim.Secp256k1 in
+def ofXY (P : Pt) : Prim.Secp256k1.Point := if P.1 == 0 && P.2 == 0 then none else some P
+
+def toXY : Prim.Secp256k1.Point → Pt
+  | none => (0, 0)
+  | some q => q
+
+/-- ekliptic's operations, computed by the independent secp256k1 implementation -/
+def secpOps : CurveOps where
+  p := Prim.Secp256k1.p
+  n := Prim.Secp256k1.n
+  gx := Prim.Secp256k1.Gx
+  gy := Prim.Secp256k1.Gy
+  sqrtExp := fun c => Prim.powMod c ((Prim.Secp256k1.p + 1) / 4) Prim.Secp256k1.p
+  add := fun a b => toXY (Prim.Secp256k1.add (ofXY a) (ofXY b))
+  mul := fun k P => toXY (Prim.Secp256k1.mul k (ofXY P))
+  invN := Prim.Secp256k1.invModN
+
+def secpSig : SigOps where
+  nonce := Prim.rfc6979Nonce
+  hAux := Prim.taggedHash "BIP0340/aux"
+  hNonce := Prim.taggedHash "BIP0340/nonce"
+  hChallenge := Prim.taggedHash "BIP0340/challenge"
+
+def hex32 (v : Nat) : String := hexOf (beBytes 32 v)
+
+def ptStr (P : Pt) : String := s!"{hex32 P.1} {hex32 P.2}"
+
+def boolStr (b : Bool) : String := if b then "true" else "false"
+
+def parseNat (s : String) : Option Nat := (parseHex s).map beNat
+
+def parseList (s : String) : Option (List Bytes) :=
+  if s == "[]" then some [] else (s.splitOn ",").mapM parseHex
+
+/-- both references must agree, otherwise the answer matches nothing -/
+def both (a b : String) : String := if a == b then a else s!"spec-disagree {a} / {b}"
+
+end EccImpl
+open EccImpl
 
 def opEcc (op : String) (args : List String) : Option String :=
   match op, args with
+  | "pub.c", [k] => do
+    let k ← parseHex k
+    some (outcomeStr hexOf (getPublicKeyCompressed secpOps k))
+  | "pub.u", [k] => do
+    let k ← parseHex k
+    some (outcomeStr hexOf (getPublicKeyUncompressed secpOps k))
+  | "pub.x", [k] => do
+    let k ← parseHex k
+    some (outcomeStr hexOf (getPublicKeySchnorr secpOps k))
+  | "pub.iscomp", [k] => do
+    let k ← parseHex k
+    some ("ok " ++ boolStr (isCompressedPublicKey k))
+  | "point.dec", [h] => do
+    let bs ← parseHex h
+    some (outcomeStr ptStr (deserializePoint secpOps bs))
+  | "point.dec.spec", [h] => do
+    let bs ← parseHex h
+    let a := match Spec.ECC.parsePoint secpOps bs with | some P => "ok " ++ ptStr P | none => "err"
+    let b := match Prim.Secp256k1.parsePoint bs with | some P => "ok " ++ ptStr P | none => "err"
+    some (both a b)
+  | "point.enc", [x, y, c] => do
+    let x ← parseNat x
+    let y ← parseNat y
+    if c != "c" && c != "u" then none
+    else some (outcomeStr hexOf (serializePoint secpOps (x, y) (c == "c")))
+  | "pub.compress", [h] => do
+    let bs ← parseHex h
+    some (outcomeStr hexOf (compressPublicKey secpOps bs))
+  | "pub.uncompress", [h] => do
+    let bs ← parseHex h
+    some (outcomeStr hexOf (uncompressPublicKey secpOps bs))
+  | "ecdh", [k, pub] => do
+    let k ← parseNat k
+    let pub ← parseHex pub
+    some (outcomeStr hexOf (deserializePoint secpOps pub >>= fun P => sharedSecret secpOps k P))
+  | "ecdh.sym", [a, b] => do
+    let a ← parseNat a
+    let b ← parseNat b
+    some (outcomeStr hexOf (mulBase secpOps b >>= fun P => sharedSecret secpOps a P))
+  | "sum.priv", [ks] => do
+    let ks ← parseList ks
+    some (outcomeStr hexOf (sumPrivateKeys secpOps ks))
+  | "sum.pub", [ks] => do
+    let ks ← parseList ks
+    some (outcomeStr hexOf (sumPublicKeys secpOps ks))
+  | "priv.new", [s] => do
+    let s ← parseHex s
+    some (outcomeStr hexOf (newPrivateKey secpOps s))
+  | "ecdsa.sign", [k, h] => do
+    let k ← parseHex k
+    let h ← parseHex h
+    some (outcomeStr (fun rs => s!"{hex32 rs.1} {hex32 rs.2}") (signECDSA secpOps secpSig k h))
+  | "ecdsa.sign.ref", [k, h] => do
+    let k ← parseHex k
+    let h ← parseHex h
+    let rs := Prim.ecdsaSign (beNat k) h
+    some s!"ok {hex32 rs.1} {hex32 rs.2}"
+  | "ecdsa.verify", [pub, h, r, s] => do
+    let pub ← parseHex pub
+    let h ← parseHex h
+    let r ← parseNat r
+    let s ← parseNat s
+    some (outcomeStr boolStr (verifyECDSA secpOps pub h r s))
+  | "ecdsa.verify.spec", [pub, h, r, s] => do
+    let pub ← parseHex pub
+    let h ← parseHex h
+    let r ← parseNat r
+    let s ← parseNat s
+    let a := Spec.ECC.verifyECDSA secpOps pub h r s
+    let b := Prim.ecdsaVerify (Prim.Secp256k1.parsePoint pub) h r s
+    some (both ("ok " ++ boolStr a) ("ok " ++ boolStr b))
+  | "schnorr.sign", [k, m, aux] => do
+    let k ← parseHex k
+    let m ← parseHex m
+    let aux ← parseHex aux
+    some (outcomeStr hexOf (signSchnorr secpOps secpSig k m aux))
+  | "schnorr.verify", [pub, m, sig] => do
+    let pub ← parseHex pub
+    let m ← parseHex m
+    let sig ← parseHex sig
+    some (outcomeStr boolStr (verifySchnorr secpOps secpSig pub m sig))
+  | "schnorr.verify.spec", [pub, m, sig] => do
+    let pub ← parseHex pub
+    let m ← parseHex m
+    let sig ← parseHex sig
+    let a := Spec.ECC.verifySchnorr secpOps secpSig.hChallenge pub m sig
+    let b := Prim.schnorrVerify pub m sig
+    some (both ("ok " ++ boolStr a) ("ok " ++ boolStr b))
+  | "sig.encode", [k, h, ht] => do
+    let k ← parseHex k
+    let h ← parseHex h
+    let ht ← ht.toNat?
+    some (outcomeStr hexOf (signSigHash secpOps secpSig h k ht))
   | _, _ => none
 
 end BtcVerif.Oracle
